@@ -243,6 +243,13 @@ def _o_iter(case):
         step = max(1, case["chunk"])
         cc = {"chunks": [data[i : i + step].hex() for i in range(0, len(data), step)], "enc": case["enc"], "hexcase": [0], "terminator": True}
         encoded, _ = c12.encode(cc)
+        if case.get("badchunk"):
+            # a correctly framed chunk whose body is a damaged compressed stream (cut short, or with flipped bytes),
+            # in front of the well-formed ones: arbitrary bytes are the domain, whatever the transfer coding
+            kind, k = case["badchunk"]
+            body = c12.compress(data[:200] or b"RTCM", case["enc"])
+            body = body[: max(1, len(body) - k)] if kind == "cut" else bytes(b ^ (0x40 if (i + k) % 5 == 0 else 0) for i, b in enumerate(body))
+            encoded = f"{len(body):x}".encode() + b"\r\n" + body + b"\r\n" + encoded
         if case.get("rawchunked"):
             # NOT a chunked body at all (e.g. the tail of a response header, text lines, binary): still only library errors
             encoded = bytes.fromhex(case["rawchunked"]) + data
@@ -278,7 +285,7 @@ def _o_iter(case):
         stream = BudgetBytesIO(data)
     calls = []
     try:
-        rdr = RTCMReader(stream, validate=case["validate"], quitonerror=qoe, parsed=case["parsed"], errorhandler=(lambda e: calls.append(e)) if case["handler"] else None, **({"encoding": __import__("pv.checks.c12", fromlist=["ENC"]).ENC[case["enc"]], "bufsize": 4096} if sock is not None else {}))
+        rdr = RTCMReader(stream, validate=case["validate"], quitonerror=qoe, parsed=case["parsed"], errorhandler=((lambda e: calls.append(e) or True) if case["handler"] == 2 else (lambda e: calls.append(e))) if case["handler"] else None, **({"encoding": __import__("pv.checks.c12", fromlist=["ENC"]).ENC[case["enc"]], "bufsize": 4096} if sock is not None else {}))
         return _iterate(case, rdr, stream, data, qoe, sock)
     except (Fail, HardStop):
         raise
@@ -336,6 +343,8 @@ def s_iter(draw, tier):
         n = sum(len(i["b"]) // 2 for i in items)
         raw = draw(st.one_of(st.none(), st.none(), st.sampled_from([b"ked\r\n\r\n", b"Transfer-Encoding: chunked\r\n\r\n", b"zz\r\n", b"1g\r\n", b"ffffffffffffffffffff\r\nabc\r\n", b"7fffffffffffffff\r\n", b"-1\r\n", b"-4\r\n", b"-5\r\n", b"-6\r\n", b"-7\r\n", b"-9\r\n", b"-a\r\n", b"-10\r\n", b"+3\r\nabc\r\n", b"0x10\r\n", b" 5 \r\nhello\r\n", b"5;ext=1\r\nhello\r\n"]), st.binary(min_size=1, max_size=30)))
         extra = {"rawchunked": raw.hex() if raw else None, "enc": draw(st.sampled_from(["none", "gzip", "compress", "deflate", "gzip+deflate", "gzip+compress", "compress+deflate", "gzip+compress+deflate"])), "chunk": draw(st.sampled_from([7, 64, 500, 5000])), "cuts": draw(streams.partitions(max(2, 2 * n)))}
+        if extra["enc"] != "none" and draw(st.integers(0, 2)) == 0:
+            extra["badchunk"] = [draw(st.sampled_from(["cut", "cut", "flip"])), draw(st.integers(1, 12))]
     return {
         **extra,
         "items": items,
@@ -344,7 +353,7 @@ def s_iter(draw, tier):
         "qoe": draw(st.sampled_from([0, 1, 2])),
         "validate": draw(st.sampled_from([1, 1, 0])),
         "parsed": draw(st.sampled_from([True, True, False])),
-        "handler": draw(st.booleans()),
+        "handler": draw(st.sampled_from([False, True, 2])),  # 2: a handler that returns a truthy value
         "debug": draw(st.integers(0, 3)) == 0,
     }
 
